@@ -190,7 +190,7 @@ def svd_incomplete(I, Y, idx, idx_many, e=1.E-10, r=1.E+12):
         n = shapes[mode]
 
         I_curr = I[idx[mode]:idx[mode+1], :]
-        M = np.array([teneva.get(Y_res[:mode], i, _to_item=False)
+        M = np.array([teneva.get(Y_res[:mode], i, _to_item=False)[0]
             for i in I_curr[::idx_many[mode], :mode]])
 
         Y_curr = Y[idx[mode]:idx[mode+1]].reshape(-1, idx_many[mode], order='C')
